@@ -138,6 +138,17 @@ func arConcrete(p *Prog) *arBounded {
 			add(fmt.Sprintf("members %q (%d bytes) and %q", n, s, other.name), "OFFSET", buildAr(G, []arMember{good(n, s), other, good("last", 2)}))
 		}
 	}
+	// member sizes around the block sizes a read-ahead layer might use: every member has to come out
+	for _, s := range []int{384, 385, 443, 444, 445, 452, 453, 511, 512, 513, 955, 956, 1023, 1024, 1025, 4027, 4028, 4029, 4095, 4096, 4097, 8191, 8192} {
+		add(fmt.Sprintf("members of %d, 3 and 0 bytes", s), "OFFSET", buildAr(G, []arMember{good("big", s), good("small", 3), good("empty", 0)}))
+	}
+	{
+		var many []arMember
+		for i := 0; i < 14; i++ {
+			many = append(many, good(fmt.Sprintf("m%d", i), i%3))
+		}
+		add("fourteen members of 0 to 2 bytes", "OFFSET", buildAr(G, many))
+	}
 	add("empty archive (global header only)", "SHORT", []byte(G))
 	// column variants
 	for _, v := range []struct{ col, text string }{
@@ -217,6 +228,16 @@ func arConcrete(p *Prog) *arBounded {
 		content := tc.b
 		m.InvokeHook = func(m *Machine, st *State, call *ssa.CallCommon, recv Val, args []Val) ([]Val, bool) {
 			if call.Method.Name() != "ReadAt" {
+				return nil, false
+			}
+			// only the caller's archive is an oracle; a ReaderAt of the repository's own (a read-ahead layer, ...) is interpreted
+			rcv := recv
+			if iv, isI := rcv.(IfaceV); isI {
+				rcv = iv.V
+			}
+			if pp, isP := rcv.(Ptr); !isP || st.Heap[pp.Obj] == nil {
+				return nil, false
+			} else if ov, isO := st.Heap[pp.Obj].V.(OpaqueV); !isO || ov.Name != "the-archive" {
 				return nil, false
 			}
 			buf, ok := args[0].(SliceV)
